@@ -201,17 +201,19 @@ def check_C07(ctx):
 TIMING_INV = ["Refines", "Shape", "PendingClose", "NoNaNTiming"]
 
 
-def timing_cases(ctx, alpha, gens, maxlines, emit=True, workers=14):
+def timing_cases(ctx, alpha, gens, maxlines, emit=True, workers=14, simulate=None):
     """MC + emission for one alphabet; returns the cases file (first line = the alphabet)."""
-    name = "MC_TimingLines_%s_%s_%d" % (alpha, gens, maxlines)
+    name = "%s_TimingLines_%s_%s_%d" % ("Sim" if simulate else "MC", alpha, gens, maxlines)
     cases = os.path.join(ctx.work, name + ".ndjson")
     body = cases + ".body"
     for p in (cases, body):
         if os.path.exists(p):
             os.remove(p)
     cfg = dict(spec="Spec", invariants=TIMING_INV,
-               constants=dict(Alpha="<-" + alpha, Gens="<-" + gens, MaxLines=str(maxlines), Emit="TRUE" if emit else "FALSE"))
-    r = tlc(ctx, "TimingLines", name, cfg, workers=workers, timeout=3000, cases_file=body if emit else None)
+               constants=dict(Alpha="<-" + alpha, Gens="<-" + gens, MaxLines=str(maxlines), MinLines=str(maxlines if simulate else 0),
+                              Emit="TRUE" if emit else "FALSE"))
+    r = tlc(ctx, "TimingLines", name, cfg, workers=1 if simulate else workers, timeout=3000, cases_file=body if emit else None,
+            simulate=simulate, depth=maxlines + 3)
     if not emit:
         return None
     if r["alpha"] is None:
@@ -239,6 +241,11 @@ def check_C12(ctx):
     else:
         files.append(timing_cases(ctx, "AlphaVel", "GensTwo", 3))
         files.append(timing_cases(ctx, "AlphaAll", "GensTwo", 2))
+    # long behaviours of the specification itself (tlc -simulate): 40-line sequences over the whole alphabet
+    # (TLC computes every successor at every step of a simulation: keep the alphabet small in the quick tier)
+    if thorough:
+        files.append(timing_cases(ctx, "AlphaAll", "GensModes", 40, simulate=300))
+    files.append(timing_cases(ctx, "AlphaVel", "GensModes", 30, simulate=300 if thorough else 40))
     for f in files:
         summ = harness(ctx, ["timing", "replay", "--spellings", "2"], cases_file=f,
                        name="timing-replay", timeout=3600)
@@ -250,7 +257,7 @@ def check_C12(ctx):
         ocases = os.path.join(ctx.work, name + ".ndjson")
         body = ocases + ".body"
         cfg = dict(spec="OSpec", invariants=["OrderRefines", "OrderShape", "EmitOrderCase"],
-                   constants=dict(Alpha="<-" + a, Gens="<-GensFour", MaxLines="2", Emit="TRUE", MaxSwitches="2" if thorough else "1", EmitOrder="TRUE"))
+                   constants=dict(Alpha="<-" + a, Gens="<-GensFour", MaxLines="2", MinLines="0", Emit="TRUE", MaxSwitches="2" if thorough else "1", EmitOrder="TRUE"))
         r = tlc(ctx, "SectionOrder", name, cfg, workers=14, timeout=3000, cases_file=body)
         with open(ocases, "w") as fo:
             fo.write(json.dumps({"alpha": r["alpha"]}) + "\n")
@@ -262,7 +269,7 @@ def check_C12(ctx):
         summ = harness(ctx, ["timing", "order"], cases_file=ocases, name="timing-order", timeout=3600)
         report_mismatches(ctx, summ, "timing lines decoded with [General] values other than those in effect when the line is read")
     tcfg = dict(spec="TrSpec", invariants=["TrShape"], postcondition="Accepted",
-                constants=dict(Alpha="<-AlphaShape", Gens="<-GensTwo", MaxLines="0", Emit="FALSE"))
+                constants=dict(Alpha="<-AlphaShape", Gens="<-GensTwo", MaxLines="0", MinLines="0", Emit="FALSE"))
     runs, lines = (40, 250) if thorough else (8, 150)
     trace_step(ctx, "Trace_TimingLines", "Trace_TimingLines", tcfg,
                ["timing", "record", "--runs", str(runs), "--lines", str(lines)],
@@ -281,19 +288,19 @@ def check_C12(ctx):
 
 # ----------------------------------------------------------------------------
 def hitobj_cases(ctx, alpha, n, maxlines, clear=True, bykind=True, emit=True, invariants=("RejectedHaveNoEffect", "ObjShape"),
-                 expect_violation=False):
-    name = "MC_HitObjectLine_%s%d_%d%s%s" % (alpha, n, maxlines, "" if clear else "_noclear", "" if bykind else "_flag")
+                 expect_violation=False, simulate=None):
+    name = "%s_HitObjectLine_%s%d_%d%s%s" % ("Sim" if simulate else "MC", alpha, n, maxlines, "" if clear else "_noclear", "" if bykind else "_flag")
     cases = os.path.join(ctx.work, name + ".ndjson")
     body = cases + ".body"
     for p in (cases, body):
         if os.path.exists(p):
             os.remove(p)
     cfg = dict(spec="Spec", invariants=list(invariants),
-               constants=dict(AlphaName='"%s"' % alpha, AlphaN=str(n), MaxLines=str(maxlines),
+               constants=dict(AlphaName='"%s"' % alpha, AlphaN=str(n), MaxLines=str(maxlines), MinLines=str(maxlines if simulate else 0),
                               ClearOnEntry="TRUE" if clear else "FALSE", LastByKind="TRUE" if bykind else "FALSE",
                               Emit="TRUE" if emit else "FALSE"))
-    r = tlc(ctx, "HitObjectLine", name, cfg, workers=14, timeout=3000, cases_file=body if emit else None,
-            expect_violation=expect_violation, count=not expect_violation)
+    r = tlc(ctx, "HitObjectLine", name, cfg, workers=1 if simulate else 14, timeout=3000, cases_file=body if emit else None,
+            expect_violation=expect_violation, count=not expect_violation, simulate=simulate, depth=maxlines + 3)
     if not emit:
         return None
     if r["alpha"] is None:
@@ -321,8 +328,14 @@ def check_C14(ctx):
         summ = harness(ctx, ["hitobj", "replay", "--prop", "C14", "--spellings", "2"], cases_file=f, name="hitobj-" + a,
                        timeout=3600)
         report_mismatches(ctx, summ, "hit-object decoding differs from the HitObjectLine specification (alphabet %s)" % a)
+    # long behaviours of the specification itself (tlc -simulate): 30-line sequences mixing all kinds
+    # (not the `num` alphabet: its 9000-repeat sliders carry 9002 node sample lists per successor)
+    for (a, num) in ((("combo", 600), ("nodes", 25)) if thorough else (("combo", 60),)):
+        f = hitobj_cases(ctx, a, 0, 30, simulate=num)
+        summ = harness(ctx, ["hitobj", "replay", "--prop", "C14", "--spellings", "1"], cases_file=f, name="hitobj-sim-" + a, timeout=3600)
+        report_mismatches(ctx, summ, "hit-object decoding differs from the HitObjectLine specification (simulated long sequences, %s)" % a)
     tcfg = dict(spec="TrSpec", invariants=["TrShape"], postcondition="Accepted",
-                constants=dict(AlphaName='"combo"', AlphaN="0", MaxLines="0", ClearOnEntry="TRUE", LastByKind="TRUE", Emit="FALSE"))
+                constants=dict(AlphaName='"combo"', AlphaN="0", MaxLines="0", MinLines="0", ClearOnEntry="TRUE", LastByKind="TRUE", Emit="FALSE"))
     runs, lines = (60, 300) if thorough else (12, 150)
     trace_step(ctx, "Trace_HitObjectLine", "Trace_HitObjectLine", tcfg,
                ["hitobj", "record", "--runs", str(runs), "--lines", str(lines)],
@@ -689,7 +702,7 @@ def timingenc_cases(ctx, alpha, gens, maxlines, scroll=True, expect_violation=Fa
         if os.path.exists(p):
             os.remove(p)
     cfg = dict(spec="Spec", invariants=["EncAccepted", "RoundTrip", "EmitEncCase"],
-               constants=dict(Alpha="<-" + alpha, Gens="<-" + gens, MaxLines=str(maxlines), Emit="TRUE" if not expect_violation else "FALSE",
+               constants=dict(Alpha="<-" + alpha, Gens="<-" + gens, MaxLines=str(maxlines), MinLines="0", Emit="TRUE" if not expect_violation else "FALSE",
                               ScrollAsVelocity="TRUE" if scroll else "FALSE", EmitEnc="FALSE" if expect_violation else "TRUE"))
     r = tlc(ctx, "TimingEncode", name, cfg, workers=14, timeout=3000, cases_file=None if expect_violation else body,
             expect_violation=expect_violation, count=not expect_violation)
@@ -775,7 +788,7 @@ def check_C15(ctx):
     cases = os.path.join(ctx.work, name + ".ndjson")
     body = cases + ".body"
     cfg = dict(spec="PSpec", invariants=["SortedStable", "ComboAfterBreak", "ClosedForms", "ShiftInvariant"],
-               constants=dict(Alpha="<-AlphaShape", Gens="<-GensTwo", MaxLines="0", Emit="FALSE", MaxObjs="2",
+               constants=dict(Alpha="<-AlphaShape", Gens="<-GensTwo", MaxLines="0", MinLines="0", Emit="FALSE", MaxObjs="2",
                               TimesSet='"%s"' % ("full" if thorough else "small"), EmitPost="TRUE"))
     r = tlc(ctx, "MapPost", name, cfg, workers=14, timeout=3000, cases_file=body)
     with open(cases, "w") as f:
